@@ -112,13 +112,15 @@ def run(tier, seed, replay_file):
             raise vlib.Broken("the design violates %s in %s: %s" % (r.violation, name, r.out[-1500:]))
 
     def graph(name, cfg, role, same, maxops, max_paths, long=False):
-        """The code as it is (a failed read is not final), without the invariant it is known to break:
-        every edge of the state graph is replayed at byte level on the real endpoint."""
+        """Every edge of the state graph is replayed at byte level on the real endpoint.  The graph is that of
+        the model variant the code follows: the design (a failed read is final) if the after-failure
+        counterexample is not reproduced, else the code as it is (without the invariants that variant breaks)."""
         model, drv = scenario(k, cfg, role, same, long)
-        model.update(Latch="FALSE", MaxOps=maxops, MaxReads=len(drv["GSizes"]) + 3, EMIT="ACTION_CONSTRAINT Emit")
-        g = vlib.tlc(SPEC, "MCSS2022Attack", "MCSS2022AttackAsCoded.cfg", model, workers=per, timeout=2400, edges=True, heap="6g")
+        model.update(Latch=stream.boolstr(state["latched"]), MaxOps=maxops, MaxReads=len(drv["GSizes"]) + 3, EMIT="ACTION_CONSTRAINT Emit")
+        g = vlib.tlc(SPEC, "MCSS2022Attack", "MCSS2022Attack.cfg" if state["latched"] else "MCSS2022AttackAsCoded.cfg", model, workers=per,
+                     timeout=2400, edges=True, heap="6g")
         if g.violation:
-            raise vlib.Broken("the as-coded model violates %s in %s: %s" % (g.violation, name, g.out[-1500:]))
+            raise vlib.Broken("the %s model violates %s in %s: %s" % ("design" if state["latched"] else "as-coded", g.violation, name, g.out[-1500:]))
         gr = vlib.Graph(g)
         paths, left = gr.cover(seed=seed, max_len=16, max_paths=max_paths)
         feed("attack replay " + name, drv, [gr.behaviour(p) for p in paths])
@@ -141,18 +143,22 @@ def run(tier, seed, replay_file):
             res = common.absorb(v, res, out, rcode, "after-failure counterexample")
             tot["behaviours"] += 1
             detail[name]["reproduced_on_code"] = bool(res["violations"])
+            if role == "client":
+                state["latched"] = not res["violations"]
             if not res["violations"]:
                 v.notes.append("%s: the TLC counterexample of the as-coded variant (data delivered by a Read that follows a failed Read) "
                                "is not reproduced by the real endpoint" % name)
 
     n = len(CONFIGS)
     primary = CONFIGS[seed % n]
+    state = {"latched": False}
+    # which variant does the code follow?  (decides which state graph predicts the real endpoint)
+    after_failure_cex("cex-client", primary, "client", True)
     second = CONFIGS[(seed + 1 + seed // n) % n]
     jobs = []
     if not big:
         jobs.append(("design-client", design, ("design-client", primary, "client", True, 2)))
         jobs.append(("design-server", design, ("design-server", primary, "server", seed % 2 == 0, 2)))
-        jobs.append(("cex-client", after_failure_cex, ("cex-client", primary, "client", True)))
         jobs.append(("graph-client", graph, ("graph-client", primary, "client", True, 1, None)))
         jobs.append(("graph-server", graph, ("graph-server", primary, "server", True, 1, None)))
         jobs.append(("graph-client-foreign", graph, ("graph-client-foreign", second, "client", False, 1, 400)))
@@ -166,7 +172,6 @@ def run(tier, seed, replay_file):
                         jobs.append(("design-" + nm, design, ("design-" + nm, cfg, role, same, 2, True)))
                         jobs.append(("graph2-" + nm, graph, ("graph2-" + nm, cfg, role, same, 2, 2500)))
                     jobs.append(("graph-" + nm, graph, ("graph-" + nm, cfg, role, same, 1, None, cfg is primary)))
-        jobs.append(("cex-client", after_failure_cex, ("cex-client", primary, "client", True)))
         jobs.append(("cex-server", after_failure_cex, ("cex-server", primary, "server", True)))
     if ONLY:
         jobs = [j for j in jobs if j[0] in ONLY]
